@@ -127,7 +127,7 @@ def pred_cases(ctx, W):
                 cs.append(pred_case(W, 'inj', life, k, F('9854.25'), rate))
     n_small = len(cs)
     dec = lambda lo, hi_, d: F(rnd.randint(int(lo * 10 ** d), int(hi_ * 10 ** d)), 10 ** d)
-    for _ in range(ctx.n(400, 2500)):
+    for _ in range(ctx.n(300, 2500)):
         life = rnd.choice([1, 2, 3, 5, 8, 12, 20, 30] + ([] if ctx.quick else [35, 60, 100]))
         k = rnd.choice([1, 2, 3, 4, 6] + ([] if ctx.quick else [12, 21, 100]))
         cap = ctx.n(120, 300 if rnd.random() < 0.9 else 1200)   # series length the kernel evaluates comfortably
@@ -614,10 +614,10 @@ def correspondence(ctx, proofs_ok=True):
     lap = lambda name: (t.append(time.time()), ctx.note(f'{name}: {t[-1] - t[-2]:.1f} s'))
     check_pred(ctx, pred_cases(ctx, W))
     lap('predictors')
-    specs = json.loads((CORPUS / 'friction_seeds.json').read_text()) + [sweep_spec(ctx) for _ in range(ctx.n(45, 700))]
+    specs = json.loads((CORPUS / 'friction_seeds.json').read_text()) + [sweep_spec(ctx) for _ in range(ctx.n(35, 700))]
     check_friction(ctx, specs)
     lap('friction sweeps')
-    check_pump(ctx, json.loads((CORPUS / 'pump_seeds.json').read_text()) + [pump_spec(ctx) for _ in range(ctx.n(14, 300))])
+    check_pump(ctx, json.loads((CORPUS / 'pump_seeds.json').read_text()) + [pump_spec(ctx) for _ in range(ctx.n(12, 300))])
     lap('hydraulic functions vs diameter')
     cfgs, pairs = run_configs(ctx), pair_configs(ctx)
     results = runner.run_many(ctx, [c['text'] for c in cfgs] + [t for pr in pairs for t in pr['texts']])
